@@ -64,6 +64,9 @@ class SingleFilterSet(FilterSetInterface[FilterValueT], metaclass=ABCMeta):
     async def put(self, name: str, value: FilterValueT) -> None:
         if name == self.name:
             await self.replace_active(value)
+        else:
+            # there is no place to keep a filter under another name
+            raise NotImplementedError()
 
     async def delete(self, name: str) -> None:
         if name == self.name:
